@@ -752,6 +752,8 @@ class StmtMixin:
     ex_AsyncWith = ex_With
 
     def enter_context(self, cm, item, st):
+        if isinstance(cm, SV) and cm.ty.kind == "opt" and cm.ty.args[0].kind == "opaque":
+            cm = self.coerce(cm, cm.ty.args[0], st.lineno)  # `with None:` is an error: obliges `is not None`
         if isinstance(cm, SV) and cm.ty.kind == "opaque" and self.specs.is_lock_type(cm.ty.name):
             self.lock_depth = getattr(self, "lock_depth", 0) + 1
             return
